@@ -131,6 +131,87 @@ def gen_case(rng, tier, with_bad=False):
     return {"uid": uid, "contexts": ctxs, "steps": steps, "dims": dims}
 
 
+def gen_raw(rng):
+    """a context written on DERIVED dimensions and not normalised when it is built (Context.from_lines without
+    to_base_func, or add_transformation): the registry normalises the rule endpoints at the first activation.  The first
+    activation carries a parameter in some entry form; later ones do not (the declared default applies)."""
+    a = Fraction(rng.choice([2, 3, 5, 7]), rng.choice([1, 2]))
+    b = Fraction(rng.choice([3, 11]), rng.choice([1, 4]))
+    dflt = Fraction(rng.choice([1, 3]), rng.choice([1, 2]))
+    return {"kind": "raw", "uid": next(_counter), "a": frac_s(a), "b": frac_s(b), "dflt": frac_s(dflt),
+            "build": rng.choice(["lines", "code"]),
+            "first": rng.choice(["to", "with", "enable", "nested", None]), "first_n": frac_s(Fraction(rng.choice([2, 4]), rng.choice([1, 3]))),
+            "x": frac_s(Fraction(rng.choice([1, 5, 10]), rng.choice([1, 4]))),
+            "later": [rng.choice(["to", "with", "enable"]) for _ in range(rng.randint(1, 3))], "ops": []}
+
+
+def run_raw(c):
+    """-> list of (what, parameter in force, observed magnitude or error name) for the later, parameter-free activations"""
+    import pint
+    u = regs.fresh("fraction")
+    a, b, dflt, x = Fraction(c["a"]), Fraction(c["b"]), Fraction(c["dflt"]), Fraction(c["x"])
+    name = f"raw{c['uid']}"
+    if c["build"] == "lines":
+        ctx = pint.Context.from_lines([f"@context(n={dflt.numerator}/{dflt.denominator}) {name}",
+                                       f"    [length] -> [frequency]: {a.numerator}/{a.denominator} * meter / second / n / value",
+                                       f"    [frequency] -> [energy]: {b.numerator}/{b.denominator} * joule * second * value"],
+                                      non_int_type=Fraction)
+    else:
+        ctx = pint.Context(name, defaults={"n": dflt})
+        ctx.add_transformation("[length]", "[frequency]", lambda ureg, v, n: a * ureg.meter / ureg.second / n / v)
+        ctx.add_transformation("[frequency]", "[energy]", lambda ureg, v, n: b * ureg.joule * ureg.second * v)
+    u.add_context(ctx)
+    q = u.Quantity(x, "meter")
+    outer = pint.Context.from_lines(["@context(n=7) outer" + str(c["uid"]), "    [current] -> [time]: value * n * second / ampere"],
+                                    u.get_dimensionality, non_int_type=Fraction)
+    u.add_context(outer)
+
+    def ask(form, kw):
+        def hz():
+            if form == "to":
+                return q.to("hertz", name, **kw).magnitude, q.to("joule", name, **kw).magnitude
+            if form == "with":
+                with u.context(name, **kw):
+                    return q.to("hertz").magnitude, q.to("joule").magnitude
+            if form == "nested":
+                with u.context(outer.name):
+                    with u.context(name):
+                        return q.to("hertz").magnitude, q.to("joule").magnitude
+            u.enable_contexts(name, **kw)
+            try:
+                return q.to("hertz").magnitude, q.to("joule").magnitude
+            finally:
+                u.disable_contexts()
+        r = capture(hz)
+        return [frac_s(Fraction(z)) for z in r["ok"]] if "ok" in r else r
+    logging.disable(logging.CRITICAL)
+    try:
+        out = []
+        if c["first"] == "nested":
+            out.append(["first", "7/1", ask("nested", {})])
+        elif c["first"]:
+            out.append(["first", c["first_n"], ask(c["first"], {"n": Fraction(c["first_n"])})])
+        for form in c["later"]:
+            out.append([form, c["dflt"], ask(form, {})])
+        return out
+    finally:
+        logging.disable(logging.NOTSET)
+
+
+def oracle_raw(c):
+    v = []
+    a, b, x = Fraction(c["a"]), Fraction(c["b"]), Fraction(c["x"])
+    for what, n, got in run_raw(c):
+        n = Fraction(n)
+        want = [frac_s(a / n / x), frac_s(b * a / n / x)]
+        if got != want:
+            v.append(f"C11 context written on derived dimensions ({c['build']}), first activation {c['first']} "
+                     f"(n={c['first_n'] if c['first'] not in (None, 'nested') else 'inherited' if c['first'] else '-'}): activation '{what}' with n={n} "
+                     f"converts {x} meter to {got} [hertz, joule]; the rules [length]->[frequency]: {a}/n/value and "
+                     f"[frequency]->[energy]: {b}*value give {want}")
+    return v
+
+
 def gen_chains(rng):
     """two chains of different length between the same pair of dimensions, with inconsistent factors:
     only the shortest one may be used"""
@@ -290,6 +371,9 @@ class Check(Property):
             c["ops"] = model_ops(c)
             self.bump("competing chains")
             out.append(c)
+        for _ in range(40 if self.tier == "quick" else 600):
+            self.bump("derived-dimension context, first activation with/without a parameter")
+            out.append(gen_raw(rng))
         for name, pairs in (("sp", [("nanometer", "terahertz"), ("terahertz", "electron_volt"), ("nanometer", "electron_volt"),
                                     ("reciprocal_centimeter", "nanometer"), ("electron_volt", "reciprocal_centimeter")]),
                             ("boltzmann", [("kelvin", "electron_volt"), ("joule", "kelvin")]),
@@ -308,16 +392,18 @@ class Check(Property):
         return self._runner[0]
 
     def impl(self, c):
-        if "bundled" in c:
+        if "bundled" in c or c.get("kind") == "raw":
             return []
         return self.runner().run(c)
 
     def same(self, c, io, mo):
-        if "bundled" in c:
+        if "bundled" in c or c.get("kind") == "raw":
             return True
         return same_outputs(c, io, mo)
 
     def nontrivial(self, c, io):
+        if c.get("kind") == "raw":
+            return canon({k: v for k, v in c.items() if k != "uid"})
         if "bundled" in c:
             return canon([c["bundled"], c["src"], c["dst"]])
         if any(s["f"] == "convert" for s in c["steps"]):
@@ -326,6 +412,8 @@ class Check(Property):
 
     # ------------------------------------------------------------------ oracle
     def oracle(self, c):
+        if c.get("kind") == "raw":
+            return oracle_raw(c)
         if "bundled" in c:
             return self.oracle_bundled(c)
         return oracle_scenario(self, c)
